@@ -4,7 +4,7 @@ import glob, json, os, shutil, sys
 sid = sys.argv[1]
 checks = sys.argv[2].split(",")
 src = "/tmp/seed%s/%s/OUT" % (os.environ.get("SEED_ROUND", "2"), sid)
-nid = sid + {"2": "b", "3": "c", "4": "d", "5": "e", "6": "f"}[os.environ.get("SEED_ROUND", "2")]
+nid = sid + {"2": "b", "3": "c", "4": "d", "5": "e", "6": "f", "7": "g"}[os.environ.get("SEED_ROUND", "2")]
 dst = "/verif/seeded/%s" % nid
 os.makedirs(dst, exist_ok=True)
 for f in glob.glob(src + "/*"):
